@@ -37,6 +37,9 @@ func genOptions(t *rapid.T) []string {
 		}
 	}
 	opts = append(opts, "store")
+	if rapid.IntRange(0, 4).Draw(t, "has_decoystore") == 0 {
+		opts = append(opts, "decoystore") // only effective when it precedes "store"
+	}
 	return rapid.Permutation(opts).Draw(t, "order")
 }
 
